@@ -52,14 +52,12 @@ structure SInv (s : St) : Prop where
   lt : ∀ t ∈ s.toks, t.gid < s.next ∧ ∀ b, t.basedOn = some b → b < s.next
   glt : ∀ g ∈ s.grants, g.id < s.next
   sc : ∀ t ∈ s.toks, (∃ g ∈ s.grants, g.id = t.gid) ∧ ∀ g ∈ s.grants, g.id = t.gid → Sub t.scope g.scope
-  base : ∀ t ∈ s.toks, ∀ b, t.basedOn = some b → ∀ bt ∈ s.toks, bt.id = b → bt.gid = t.gid
   guniq : ∀ g1 ∈ s.grants, ∀ g2 ∈ s.grants, g1.id = g2.id → g1.scope = g2.scope
 
 theorem sinv_init : SInv {} := by
-  refine ⟨inv_init, ?_, ?_, ?_, ?_, ?_⟩
+  refine ⟨inv_init, ?_, ?_, ?_, ?_⟩
   · intro t ht; simp at ht
   · intro g hg; simp at hg
-  · intro t ht; simp at ht
   · intro t ht; simp at ht
   · intro g hg; simp at hg
 
@@ -71,7 +69,7 @@ theorem sinv_old (s : St) (toks : List Tok) (grants : List Gr) (now : Nat) (pend
     (hg1 : ∀ g' ∈ grants, ∃ g ∈ s.grants, g.id = g'.id ∧ g.scope = g'.scope)
     (hg2 : ∀ t' ∈ toks, ∃ g' ∈ grants, g'.id = t'.gid) :
     SInv { s with toks := toks, grants := grants, now := now, pending := pending } := by
-  refine ⟨hi, ?_, ?_, ?_, ?_, ?_⟩
+  refine ⟨hi, ?_, ?_, ?_, ?_⟩
   rotate_right
   · intro g1 hg1' g2 hg2' hid
     obtain ⟨a1, ha1, i1, s1⟩ := hg1 g1 hg1'
@@ -95,11 +93,6 @@ theorem sinv_old (s : St) (toks : List Tok) (grants : List Gr) (now : Nat) (pend
     obtain ⟨g, hg, hgid, hgs⟩ := hg1 g' hg'
     rw [k.scope, ← hgs]
     exact (h.sc t ht).2 g hg (by rw [hgid, hid, k.gid])
-  · intro t' ht' b hb bt' hbt' hbid
-    obtain ⟨t, ht, k⟩ := ho t' ht'
-    obtain ⟨bt, hbt, kb⟩ := ho bt' hbt'
-    rw [k.gid, kb.gid]
-    exact h.base t ht b (by rw [← k.basedOn]; exact hb) bt hbt (by rw [← kb.id]; exact hbid)
 
 /-- only the token list changes (grants untouched) -/
 theorem sinv_toks (s : St) (toks : List Tok) (h : SInv s) (hi : Inv { s with toks := toks }) (ho : OldT s.toks toks) :
@@ -109,13 +102,12 @@ theorem sinv_toks (s : St) (toks : List Tok) (h : SInv s) (hi : Inv { s with tok
   exact this
 
 theorem findScope_sub' (s : St) (h : SInv s) (g : Gr) (hg : g ∈ s.grants) :
-    ∀ (fuel : Nat) (b : Option Nat), (∀ b', b = some b' → ∀ bt, findTok s b' = some bt → bt.gid = g.id) →
-      Sub (findScope s g fuel b) g.scope := by
+    ∀ (fuel : Nat) (b : Option Nat), Sub (findScope s g fuel b) g.scope := by
   intro fuel
   induction fuel with
-  | zero => intro b _ x hx; simpa [findScope] using hx
+  | zero => intro b x hx; simpa [findScope] using hx
   | succ f ih =>
-    intro b hb
+    intro b
     cases b with
     | none => intro x hx; simpa [findScope] using hx
     | some bb =>
@@ -124,23 +116,22 @@ theorem findScope_sub' (s : St) (h : SInv s) (g : Gr) (hg : g ∈ s.grants) :
       · intro x hx; exact hx
       · rename_i t ht
         have hm := findTok_mem ht
-        have hgid : t.gid = g.id := hb bb rfl t ht
         split
-        · exact (h.sc t hm.1).2 g hg hgid.symm
-        · apply ih
-          intro b' hb' bt hbt
-          have hbm := findTok_mem hbt
-          rw [h.base t hm.1 b' hb' bt hbm.1 hbm.2, hgid]
+        · intro x hx; exact hx
+        · rename_i hgid
+          have hgid' : t.gid = g.id := by simpa using hgid
+          split
+          · exact (h.sc t hm.1).2 g hg hgid'.symm
+          · exact ih _
 
 
 /-- a freshly minted token appended to an old-only transform of the token list -/
 theorem sinv_append (s : St) (toks : List Tok) (n : Tok) (h : SInv s)
     (hi : Inv { s with next := s.next + 1, toks := toks ++ [n] })
     (ho : OldT s.toks toks) (hid : n.id = s.next) (g : Gr) (hg : g ∈ s.grants) (hgid : n.gid = g.id)
-    (hsc : Sub n.scope g.scope) (hbl : ∀ b, n.basedOn = some b → b < s.next)
-    (hbg : ∀ b, n.basedOn = some b → ∀ bt ∈ s.toks, bt.id = b → bt.gid = n.gid) :
+    (hsc : Sub n.scope g.scope) (hbl : ∀ b, n.basedOn = some b → b < s.next) :
     SInv { s with next := s.next + 1, toks := toks ++ [n] } := by
-  refine ⟨hi, ?_, ?_, ?_, ?_, h.guniq⟩
+  refine ⟨hi, ?_, ?_, ?_, h.guniq⟩
   · intro t' ht'
     simp only [List.mem_append, List.mem_singleton] at ht'
     rcases ht' with ht' | rfl
@@ -163,22 +154,6 @@ theorem sinv_append (s : St) (toks : List Tok) (n : Tok) (h : SInv s)
       intro g' hg' hid'
       rw [← h.guniq g hg g' hg' (by rw [hid', hgid])]
       exact hsc
-  · intro t' ht' b hb bt' hbt' hbid
-    simp only [List.mem_append, List.mem_singleton] at ht' hbt'
-    rcases ht' with ht' | rfl
-    · obtain ⟨t, ht, k⟩ := ho t' ht'
-      have hblt : b < s.next := (h.lt t ht).2 b (by rw [← k.basedOn]; exact hb)
-      rcases hbt' with hbt' | rfl
-      · obtain ⟨bt, hbt, kb⟩ := ho bt' hbt'
-        rw [k.gid, kb.gid]
-        exact h.base t ht b (by rw [← k.basedOn]; exact hb) bt hbt (by rw [← kb.id]; exact hbid)
-      · rw [hid] at hbid; rw [hbid] at hblt; exact absurd hblt (Nat.lt_irrefl _)
-    · have hblt := hbl b hb
-      rcases hbt' with hbt' | rfl
-      · obtain ⟨bt, hbt, kb⟩ := ho bt' hbt'
-        rw [kb.gid]
-        exact hbg b hb bt hbt (by rw [← kb.id]; exact hbid)
-      · rfl
 
 theorem ks_used (t : Tok) (u : Nat) : KS t { t with used := u } := ⟨rfl, rfl, rfl, rfl⟩
 theorem ks_revoked (t : Tok) : KS t { t with revoked := true } := ⟨rfl, rfl, rfl, rfl⟩
@@ -188,7 +163,6 @@ theorem ks_mints (t : Tok) (m : List Cls) : KS t { t with mints := m } := ⟨rfl
     caller checked against the grant) or what `find_scope` finds in the base's ancestry -/
 theorem mint_sinv {cfg : Cfg} {s : St} {g : Gr} {cls : Cls} {base : Option Nat} {scope : Option (List Str)} {s' : St} {id : Nat}
     (hm : mint cfg s g cls base scope = .ok s' id) (h : SInv s) (hg : g ∈ s.grants)
-    (hb : ∀ b, base = some b → ∀ bt, findTok s b = some bt → bt.gid = g.id)
     (hs : ∀ sc, scope = some sc → Sub sc g.scope) : SInv s' := by
   have hinv : Inv s' := mint_ok_inv hm h.inv
   unfold mint at hm
@@ -197,7 +171,7 @@ theorem mint_sinv {cfg : Cfg} {s : St} {g : Gr} {cls : Cls} {base : Option Nat} 
   · split at hm
     · simp only [MintRes.ok.injEq] at hm
       obtain ⟨rfl, _⟩ := hm
-      refine sinv_append s s.toks _ h hinv (OldT.refl _) (by simp [newTok]) g hg (by simp [newTok]) ?_ (by simp [newTok]) (by simp [newTok])
+      refine sinv_append s s.toks _ h hinv (OldT.refl _) (by simp [newTok]) g hg (by simp [newTok]) ?_ (by simp [newTok])
       simp only [newTok]
       cases scope with
       | none => intro x hx; exact hx
@@ -213,20 +187,28 @@ theorem mint_sinv {cfg : Cfg} {s : St} {g : Gr} {cls : Cls} {base : Option Nat} 
           · simp only [MintRes.ok.injEq] at hm
             obtain ⟨rfl, _⟩ := hm
             have hbm := findTok_mem hbt
-            have hbgid : bt.gid = g.id := hb b rfl bt hbt
-            refine sinv_append s _ _ h hinv (oldT_updTok _ _ _ (fun t => ks_used t _)) (by simp [newTok]) g hg (by simp [newTok]) ?_ ?_ ?_
+            refine sinv_append s _ _ h hinv (oldT_updTok _ _ _ (fun t => ks_used t _)) (by simp [newTok]) g hg (by simp [newTok]) ?_ ?_
             · simp only [newTok]
               cases scope with
-              | none => exact findScope_sub' s h g hg _ (some b) (fun b' hb' bt' hbt' => hb b' hb' bt' hbt')
+              | none => exact findScope_sub' s h g hg _ (some b)
               | some sc => exact hs sc rfl
             · intro b' hb'
               simp only [newTok, Option.some.injEq] at hb'
               rw [← hb', ← hbm.2]
               exact inv_lt h.inv hbm.1
-            · intro b' hb' bt' hbt' hid'
-              simp only [newTok, Option.some.injEq] at hb'
-              have : bt' = bt := inv_uniq h.inv hbt' hbm.1 (by rw [hid', ← hb', hbm.2])
-              rw [this]; simp [newTok, hbgid]
+
+/-- the exchange mint keeps the scope invariant when the explicit scope is inside the grant's -/
+theorem mintX_sinv {cfg : Cfg} {s : St} {g : Gr} {cls : Cls} {b : Nat} {sc : List Str} {s' : St} {id : Nat}
+    (hm : mintX cfg s g cls b sc = .ok s' id) (h : SInv s) (hg : g ∈ s.grants) (hs : Sub sc g.scope) : SInv s' := by
+  have hinv : Inv s' := mintX_ok_inv hm h.inv
+  obtain ⟨bt, hbt, _, _, _, _, rfl⟩ := mintX_ok_shape hm
+  have hbm := findTok_mem hbt
+  refine sinv_append s _ _ h hinv (oldT_updTok _ _ _ (fun t => ks_used t _)) (by simp [newTok]) g hg (by simp [newTok]) ?_ ?_
+  · simpa [newTok] using hs
+  · intro b' hb'
+    simp only [newTok, Option.some.injEq] at hb'
+    rw [← hb', ← hbm.2]
+    exact inv_lt h.inv hbm.1
 
 
 theorem findGr_mem {s : St} {i : Nat} {g : Gr} (h : findGr s i = some g) : g ∈ s.grants ∧ g.id = i := by
@@ -253,11 +235,7 @@ theorem good_mint {cfg : Cfg} {s : St} {g : Gr} {cls : Cls} {c : Nat} {scope : O
     (hs : ∀ sc, scope = some sc → Sub sc g.scope) : Good s' g c := by
   have hn := mint_ok_next hm
   have hadv := mint_ok_adv hm
-  refine ⟨mint_sinv hm h.sinv h.gmem ?_ hs, by rw [hn.2.2.2.1]; exact h.gmem, by rw [hn.1]; exact Nat.lt_succ_of_lt h.clt, ?_⟩
-  · intro b hb bt hbt
-    cases hb
-    have hm' := findTok_mem hbt
-    exact h.cin bt hm'.1 hm'.2
+  refine ⟨mint_sinv hm h.sinv h.gmem hs, by rw [hn.2.2.2.1]; exact h.gmem, by rw [hn.1]; exact Nat.lt_succ_of_lt h.clt, ?_⟩
   · intro bt' hbt' hbid
     rcases hadv.ev bt' hbt' with ⟨bt, hbt, k⟩ | ⟨hge, _⟩
     · rw [k.gid]; exact h.cin bt hbt (by rw [← k.id]; exact hbid)
@@ -337,6 +315,42 @@ theorem isSubset_sub' {a b : List Str} (h : isSubset a b = true) : Sub a b := by
   simp only [isSubset, List.all_eq_true] at h
   simpa using h x hx
 
+/-- a new grant record with the fresh id keeps the invariant -/
+theorem sinv_newGrant (s : St) (g' : Gr) (hid' : g'.id = s.next) (h : SInv s) :
+    SInv { s with next := s.next + 1, grants := s.grants ++ [g'] } := by
+  refine ⟨inv_of_idsSub (Nat.le_succ _) (IdsSub.refl _) h.inv, ?_, ?_, ?_, ?_⟩
+  · intro t ht
+    have := h.lt t ht
+    exact ⟨Nat.lt_succ_of_lt this.1, fun b hb => Nat.lt_succ_of_lt (this.2 b hb)⟩
+  · intro g hg
+    simp only [List.mem_append, List.mem_singleton] at hg
+    rcases hg with hg | rfl
+    · exact Nat.lt_succ_of_lt (h.glt g hg)
+    · simp [hid']
+  · intro t ht
+    refine ⟨?_, ?_⟩
+    · obtain ⟨g, hg, hid⟩ := (h.sc t ht).1
+      exact ⟨g, List.mem_append_left _ hg, hid⟩
+    · intro g hg hid
+      simp only [List.mem_append, List.mem_singleton] at hg
+      rcases hg with hg | rfl
+      · exact (h.sc t ht).2 g hg hid
+      · have := (h.lt t ht).1
+        rw [← hid, hid'] at this
+        exact absurd this (Nat.lt_irrefl _)
+  · intro g1 hg1 g2 hg2 hid
+    simp only [List.mem_append, List.mem_singleton] at hg1 hg2
+    rcases hg1 with hg1 | rfl <;> rcases hg2 with hg2 | rfl
+    · exact h.guniq g1 hg1 g2 hg2 hid
+    · have := h.glt g1 hg1; rw [hid, hid'] at this; exact absurd this (Nat.lt_irrefl _)
+    · have := h.glt g2 hg2; rw [← hid, hid'] at this; exact absurd this (Nat.lt_irrefl _)
+    · rfl
+
+theorem xScope_sub (req : Option (List Str)) (subj : List Str) : Sub (xScope req subj) subj := by
+  intro x hx
+  simp only [xScope, List.mem_eraseDups, List.mem_filter] at hx
+  simpa using hx.2
+
 /-- **every API step keeps the scope invariant** -/
 theorem step_sinv (cfg : Cfg) (s : St) (op : Op) (h : SInv s) : SInv (step cfg s op).1 := by
   cases op with
@@ -345,38 +359,8 @@ theorem step_sinv (cfg : Cfg) (s : St) (op : Op) (h : SInv s) : SInv (step cfg s
     simp only [step]
     split
     · rename_i s2 c hm
-      -- the state with the new grant
-      have h1 : SInv { s with next := s.next + 1, grants := s.grants ++ [mkGrant cfg s user client scope redirect] } := by
-        refine ⟨inv_of_idsSub (Nat.le_succ _) (IdsSub.refl _) h.inv, ?_, ?_, ?_, ?_, ?_⟩
-        · intro t ht
-          have := h.lt t ht
-          exact ⟨Nat.lt_succ_of_lt this.1, fun b hb => Nat.lt_succ_of_lt (this.2 b hb)⟩
-        · intro g hg
-          simp only [List.mem_append, List.mem_singleton] at hg
-          rcases hg with hg | rfl
-          · exact Nat.lt_succ_of_lt (h.glt g hg)
-          · simp [mkGrant]
-        · intro t ht
-          refine ⟨?_, ?_⟩
-          · obtain ⟨g, hg, hid⟩ := (h.sc t ht).1
-            exact ⟨g, List.mem_append_left _ hg, hid⟩
-          · intro g hg hid
-            simp only [List.mem_append, List.mem_singleton] at hg
-            rcases hg with hg | rfl
-            · exact (h.sc t ht).2 g hg hid
-            · have := (h.lt t ht).1
-              simp only [mkGrant] at hid
-              rw [← hid] at this
-              exact absurd this (Nat.lt_irrefl _)
-        · exact h.base
-        · intro g1 hg1 g2 hg2 hid
-          simp only [List.mem_append, List.mem_singleton] at hg1 hg2
-          rcases hg1 with hg1 | rfl <;> rcases hg2 with hg2 | rfl
-          · exact h.guniq g1 hg1 g2 hg2 hid
-          · have := h.glt g1 hg1; simp only [mkGrant] at hid; rw [hid] at this; exact absurd this (Nat.lt_irrefl _)
-          · have := h.glt g2 hg2; simp only [mkGrant] at hid; rw [← hid] at this; exact absurd this (Nat.lt_irrefl _)
-          · rfl
-      exact mint_sinv hm h1 (by simp) (fun b hb => by cases hb) (fun sc hsc => by cases hsc)
+      have h1 := sinv_newGrant s (mkGrant cfg s user client scope redirect) (by simp [mkGrant]) h
+      exact mint_sinv hm h1 (by simp) (fun sc hsc => by cases hsc)
     · exact h
   | tokenParse client code redirect =>
     simp only [step]
@@ -440,14 +424,9 @@ theorem step_sinv (cfg : Cfg) (s : St) (op : Op) (h : SInv s) : SInv (step cfg s
              have : bt = t := inv_uniq h.inv hbt htm.1 (by rw [hbid, htm.2])
              rw [this, hgm.2]⟩
         have hbound : Sub (findScope s g (s.toks.length + 1) t.basedOn) g.scope :=
-          findScope_sub' s h g hgm.1 _ _ (fun b' hb' bt hbt => by
-            have hbm := findTok_mem hbt
-            rw [h.base t htm.1 b' hb' bt hbm.1 hbm.2, hgm.2])
+          findScope_sub' s h g hgm.1 _ _
         have hself : Sub (findScope s g (s.toks.length + 1) (some rt)) g.scope :=
-          findScope_sub' s h g hgm.1 _ _ (fun b' hb' bt hbt => by
-            cases hb'
-            have hbm := findTok_mem hbt
-            exact good0.cin bt hbm.1 hbm.2)
+          findScope_sub' s h g hgm.1 _ _
         split
         · exact h
         · split
@@ -479,6 +458,24 @@ theorem step_sinv (cfg : Cfg) (s : St) (op : Op) (h : SInv s) : SInv (step cfg s
                   have g4 := fun w1 i w2 => good_mintExtra cfg _ g .idtoken rt _ w2 (g3 w1 i) hsc
                   have g5 := fun w1 i w2 => good_incUsed _ g rt rt (g4 w1 i w2)
                   exact (good_revokeIf _ g rt _ rt (g5 _ _ _)).sinv
+  | exchange client subj styp rtyp scope =>
+    simp only [step]
+    split
+    · exact h
+    · rename_i t ht
+      split
+      · exact h
+      · rename_i g hg
+        have hgm := findGr_mem hg
+        have htm := findTok_mem ht
+        have hsub : Sub (xScope scope t.scope) g.scope := fun x hx =>
+          (h.sc t htm.1).2 g hgm.1 hgm.2 x (xScope_sub scope t.scope x hx)
+        repeat (first
+          | exact h
+          | exact sinv_newGrant s _ (by simp [mkXGrant]) h
+          | (rename_i hm; exact mintX_sinv hm h hgm.1 hsub)
+          | (rename_i hm; exact mintX_sinv hm (sinv_newGrant s _ (by simp [mkXGrant]) h) (by simp) (by simp [mkXGrant, Sub]))
+          | split)
   | userinfo tok =>
     simp only [step]
     repeat (first | exact h | split)
@@ -508,6 +505,11 @@ theorem step_sinv (cfg : Cfg) (s : St) (op : Op) (h : SInv s) : SInv (step cfg s
     · exact h
     · exact sinv_foldl_revokeGr _ s h
   | revokeUser u =>
+    simp only [step]
+    split
+    · exact h
+    · exact sinv_foldl_revokeGr _ s h
+  | logoutAll u =>
     simp only [step]
     split
     · exact h
